@@ -2,14 +2,14 @@
 """tools/keep_seed.py <src dir> <PROP> <name>: run seedtest, and store the seed under seeded/<name>/ with meta.json."""
 import os, sys, json, subprocess, shutil
 VERIF = os.path.dirname(os.path.dirname(os.path.abspath(__file__)))
-src, prop, name = sys.argv[1], sys.argv[2], sys.argv[3]
+src, prop, name = os.path.abspath(sys.argv[1]), sys.argv[2], sys.argv[3]
 extra = sys.argv[4:]
 out = subprocess.run([os.path.join(VERIF, "tools", "seedtest.py"), src, prop] + extra, capture_output=True, text=True).stdout
 res = json.loads(out)
 dst = os.path.join(VERIF, "seeded", name)
 os.makedirs(dst, exist_ok=True)
 for f in ("patch.diff", "demo.py", "notes.md"):
-    if os.path.exists(os.path.join(src, f)):
+    if os.path.exists(os.path.join(src, f)) and os.path.realpath(os.path.join(src, f)) != os.path.realpath(os.path.join(dst, f)):
         shutil.copy(os.path.join(src, f), os.path.join(dst, f))
 notes = open(os.path.join(src, "notes.md")).read() if os.path.exists(os.path.join(src, "notes.md")) else ""
 head = subprocess.run("git -C /repo rev-parse --short HEAD", shell=True, capture_output=True, text=True).stdout.strip()
